@@ -61,6 +61,7 @@ struct Emitter {
   std::map<const CallExpr *, int> callIds;
   std::map<const VarDecl *, int> varIds;
   Array varTable;
+  const CallExpr *curCall = nullptr;
 
   Emitter(ASTContext &C) : C(C), SM(C.getSourceManager()), LO(C.getLangOpts()) {}
 
@@ -259,7 +260,7 @@ struct Emitter {
       auto it = callIds.find(Ca);
       if (it != callIds.end()) o["id"] = it->second;
       o["ln"] = lineOf(Ca->getBeginLoc());
-      bool asRef = depth > 0 && it != callIds.end();
+      bool asRef = (Ca != curCall) && it != callIds.end();
       if (asRef) o["ref"] = true;
       if (auto *FD = Ca->getDirectCallee()) {
         o["callee"] = FD->getNameAsString();
@@ -509,7 +510,9 @@ struct Visitor : RecursiveASTVisitor<Visitor> {
         if (auto *CE = dyn_cast<CallExpr>(St)) {
           keep = true;
           eo["k"] = "call";
+          E.curCall = CE;
           eo["e"] = E.expr(CE);
+          E.curCall = nullptr;
         } else if (auto *BOp = dyn_cast<BinaryOperator>(St)) {
           if (BOp->isAssignmentOp()) { keep = true; eo["k"] = "asg"; eo["e"] = E.expr(BOp); }
         } else if (auto *UO = dyn_cast<UnaryOperator>(St)) {
